@@ -341,6 +341,7 @@ impl Scenario for TrioScn {
             }
             if !c07 {
                 v.push(TAct::Underfunded { user: BOB.to_string(), what: "swap".to_string() });
+                v.push(TAct::Underfunded { user: BOB.to_string(), what: "swap_nothing_attached".to_string() });
                 v.push(TAct::Underfunded { user: BOB.to_string(), what: "provide".to_string() });
                 // a deposit whose third entry is not the pool's third asset (a token the pool does not hold / the first entry again);
                 // the first two entries are pool assets and are paid for
@@ -488,7 +489,9 @@ impl Scenario for TrioScn {
                 let ub: Vec<u128> = t.assets.iter().map(|a| info_balance(w, a, user)).collect();
                 let lpb = w.cw20_balance(&t.lp, user);
                 let declared = (res[0] / 10).max(2);
-                let r = if what == "swap" {
+                let r = if what == "swap_nothing_attached" {
+                    w.exec(user, &t.addr, &TrioExec::Swap { offer_asset: asset(&t.assets[0], declared), ask_asset: t.assets[1].clone(), belief_price: loose_belief(), max_spread: Some(Decimal::percent(50)), to: None }, &[])
+                } else if what == "swap" {
                     w.exec(
                         user,
                         &t.addr,
